@@ -260,6 +260,35 @@ fn one(idx: usize, native: bool, transferred: bool) -> impl Fn() {
     }
 }
 
+/// a vAMM deployed without a margin engine: nobody holds the engine role, every sender of the
+/// engine-only entry points must be rejected with nothing changed
+fn no_engine(which: u8) -> impl Fn() {
+    move || {
+        symrt::set_full(true);
+        let roles = [Role::Owner, Role::Pauser, Role::Engine, Role::Ins, Role::Trader, Role::Stranger];
+        for (k, role) in roles.iter().enumerate() {
+            let mut w = setup(false, "vamm", false);
+            let d = w.d;
+            let v2 = w.instantiate_vamm_with(w.cfg.decimals, false);
+            // let funding become due
+            w.next_block(90_000);
+            let now = w.now();
+            w.set_oracle(Uint128::new(11 * d), now);
+            let who = sender_addr(&w, *role);
+            let msg = match which {
+                0 => VammExec::SwapInput { direction: Direction::AddToAmm, quote_asset_amount: v(&format!("n{}.amt", k), 10 * d), base_asset_limit: Uint128::zero(), can_go_over_fluctuation: true },
+                1 => VammExec::SwapOutput { direction: Direction::RemoveFromAmm, base_asset_amount: v(&format!("n{}.amt", k), d), quote_asset_limit: Uint128::zero() },
+                _ => VammExec::SettleFunding {},
+            };
+            let before = w.app.dump_wasm_raw(&v2);
+            let t = w.exec(&who, &v2, &msg, &[]);
+            let what = format!("engine-less vAMM entry#{} sender={:?}", which, role);
+            prove_d("C09/non-role-sender-rejected", Cond::from_bool(!t.ok), what.clone());
+            prove_d("C09/rejected-call-leaves-storage-unchanged", Cond::from_bool(before == w.app.dump_wasm_raw(&v2)), what);
+        }
+    }
+}
+
 pub fn scenarios(_seed: u64) -> Vec<Scenario> {
     let mut v = vec![];
     let d = "one privileged entry point x all sender kinds {owner, pauser, engine, insurance fund, vAMM, trader, stranger (+ new owner / new pauser after a role transfer)} on fresh deployments with the repository's own price feed; payload amounts/ratios symbolic over the full range";
@@ -269,6 +298,9 @@ pub fn scenarios(_seed: u64) -> Vec<Scenario> {
         v.push(sc("C09", Tier::Quick, &format!("c09.{}.{}", c, var), d, 400, 90, one(i, false, false)));
         v.push(sc("C09", Tier::Quick, &format!("c09.{}.{}.transferred", c, var), d, 400, 90, one(i, false, true)));
         v.push(sc("C09", Tier::Thorough, &format!("c09.{}.{}.native", c, var), d, 400, 90, one(i, true, false)));
+    }
+    for (k, n) in [(0u8, "swap_input"), (1, "swap_output"), (2, "settle_funding")] {
+        v.push(sc("C09", Tier::Quick, &format!("c09.vamm.{}.no-engine-configured", n), "a vAMM instantiated without a margin engine: the engine-only entry point must reject every sender kind", 200, 60, no_engine(k)));
     }
     let _ = Addr::unchecked("");
     v
